@@ -89,7 +89,10 @@ fn file_defs_of(f: &File) -> FileDefs {
                 if let Some(t) = type_last_ident(&im.self_ty) {
                     for ii in im.items.iter() {
                         if let ImplItem::Type(a) = ii {
-                            let it = type_last_ident(&a.ty).filter(|_| matches!(strip_group(&a.ty), Type::Path(p) if p.qself.is_none() && p.path.segments.len() == 1 && matches!(p.path.segments[0].arguments, PathArguments::None)));
+                            let it = match strip_group(&a.ty) {
+                                Type::Path(p) if p.qself.is_none() && p.path.segments.len() <= 2 && p.path.segments.iter().all(|s| matches!(s.arguments, PathArguments::None)) => Some(p.path.segments.iter().map(|s| s.ident.to_string()).collect::<Vec<_>>().join("::")),
+                                _ => None,
+                            };
                             let key = (t.clone(), a.ident.to_string());
                             let v = match (d.assoc_types.get(&key), it) {
                                 (None, Some(i)) => Some(i),
@@ -141,7 +144,7 @@ fn type_last_ident(t: &Type) -> Option<String> {
     }
 }
 
-fn strip_group(t: &Type) -> &Type {
+pub fn strip_group(t: &Type) -> &Type {
     match t {
         Type::Group(g) => strip_group(&g.elem),
         Type::Paren(g) => strip_group(&g.elem),
@@ -317,6 +320,8 @@ fn find_fn<'s>(src: &'s Source, self_ty: Option<&str>, trait_spec: Option<&str>,
 struct FnJob {
     file: String,
     self_ty: Option<String>,
+    /// the self type as written in the impl header (differs from self_ty for an instantiated blanket impl)
+    find_self_ty: Option<String>,
     trait_spec: Option<String>,
     name: String,
     info_idx: usize,
@@ -844,7 +849,12 @@ impl Driver {
                 // zero-sized: no data, left out of constructor, literals and updates
                 Ty::Opaque("PhantomData".into())
             } else {
-                match self.conv(&f.ty, &gens, Some(name), Some(name)) {
+                // a `&'a mut T` field holds the state of the borrowed value (state passing)
+                let fty: &Type = match &f.ty {
+                    Type::Reference(r) if r.mutability.is_some() => &r.elem,
+                    t => t,
+                };
+                match self.conv(fty, &gens, Some(name), Some(name)) {
                     Ok(t) => subst_ty(&t, &subst),
                     Err(e) => Ty::Opaque(e),
                 }
@@ -939,7 +949,20 @@ impl Driver {
         if eqb.is_some() && !derives.contains("PartialEq") {
             return Err(format!("enum `{}`: `eqb=` given but the enum does not derive PartialEq (a hand-written `eq` is not translated)", name));
         }
-        let eqb = if eqb.is_none() && variants.iter().all(|v| v.fields.is_empty()) && derives.contains("PartialEq") { Some(format!("{}_eqb", sanitize(name))) } else { eqb };
+        // derive(PartialEq): structural equality, when every field has a decidable equality we know
+        let field_eq_ok = |t: &Ty| -> bool {
+            match t {
+                Ty::Int(Some(_)) | Ty::Bool => true,
+                Ty::Param(p) => self.tables.tyvars.get(p).map(|c| c == "Z").unwrap_or(false),
+                Ty::Adt(k) => match self.tables.adts.get(k) {
+                    Some(Adt::Struct(s)) => s.eqb.is_some(),
+                    Some(Adt::Enum(e)) => e.eqb.is_some(),
+                    None => false,
+                },
+                _ => false,
+            }
+        };
+        let eqb = if eqb.is_none() && variants.iter().all(|v| v.fields.iter().all(|(_, t)| field_eq_ok(t))) && derives.contains("PartialEq") { Some(format!("{}_eqb", sanitize(name))) } else { eqb };
         let auto_eqb = eqb.as_deref() == Some(format!("{}_eqb", sanitize(name)).as_str());
         let clone_ok = derives.contains("Clone") || derives.contains("Copy");
         let line = en.span().start().line;
@@ -959,7 +982,7 @@ impl Driver {
         Ok(())
     }
 
-    fn add_fn(&mut self, file: &str, spec: &str, coq_as: Option<String>, inst: Option<String>, module: usize) -> R<()> {
+    fn add_fn(&mut self, file: &str, spec: &str, coq_as: Option<String>, inst: Option<String>, needs: Option<String>, module: usize) -> R<()> {
         self.load(file)?;
         let parts = split_spec(spec);
         let (self_ty, trait_spec, name) = match parts.len() {
@@ -974,18 +997,42 @@ impl Driver {
         if let Some(g) = ff.impl_generics {
             gens.extend(Self::generics_of(g));
         }
+        // a blanket impl `impl<T: Bound> Trait for T` instantiated with `inst=T:Type`: the self type is that type
+        let find_self_ty = self_ty.clone();
+        let self_ty: Option<String> = match (&self_ty, &inst) {
+            (Some(stn), Some(inst)) => {
+                let mut out = self_ty.clone();
+                for part in inst.split(',') {
+                    if let Some((g, t)) = part.split_once(':') {
+                        if g == stn {
+                            let ty: Type = syn::parse_str(t).map_err(|e| format!("inst type `{}`: {}", t, e))?;
+                            if let Ty::Adt(k) = self.conv(&ty, &BTreeSet::new(), None, None)? {
+                                out = Some(k);
+                            }
+                        }
+                    }
+                }
+                out
+            }
+            _ => self_ty.clone(),
+        };
         let st = self_ty.as_deref();
         let mut isub = self.instance_subst(st, ff.impl_self)?;
         let mut inst_map: BTreeMap<String, Ty> = BTreeMap::new();
         if let Some(inst) = &inst {
-            let fn_gens = Self::generics_of(&ff.sig.generics);
+            let mut fn_gens = Self::generics_of(&ff.sig.generics);
+            if let Some(g) = ff.impl_generics {
+                fn_gens.extend(Self::generics_of(g));
+            }
             for part in inst.split(',') {
                 let (g, t) = part.split_once(':').ok_or_else(|| format!("{} `{}`: `inst={}` is not Param:Type[,..]", file, spec, inst))?;
                 if !fn_gens.contains(g) {
                     return Err(format!("{} `{}`: `{}` is not a type parameter of the function", file, spec, g));
                 }
                 let ty: Type = syn::parse_str(t).map_err(|e| format!("inst type `{}`: {}", t, e))?;
-                let ty = self.conv(&ty, &BTreeSet::new(), None, None)?;
+                // a configured type, or a type variable (`tyvar`): a renaming of the parameter
+                let tvs: BTreeSet<String> = self.tables.tyvars.keys().filter(|k| !k.contains("::")).cloned().collect();
+                let ty = self.conv(&ty, &tvs, None, None)?;
                 inst_map.insert(g.to_string(), ty.clone());
                 isub.insert(g.to_string(), ty);
             }
@@ -1045,8 +1092,30 @@ impl Driver {
                         }
                         if let (Pat::Ident(pi), Type::Path(tp)) = (&*pt.pat, t) {
                             if let Some(id) = tp.path.get_ident() {
-                                if gens.contains(&id.to_string()) && !inst_map.contains_key(&id.to_string()) {
-                                    ptys.insert(pi.ident.to_string(), id.to_string());
+                                if gens.contains(&id.to_string()) {
+                                    match inst_map.get(&id.to_string()) {
+                                        None => {
+                                            ptys.insert(pi.ident.to_string(), id.to_string());
+                                        }
+                                        // renamed to another type variable
+                                        Some(Ty::Param(q)) => {
+                                            ptys.insert(pi.ident.to_string(), q.clone());
+                                        }
+                                        Some(_) => {}
+                                    }
+                                }
+                            }
+                        }
+                    }
+                }
+                // fields of `self` whose type is a generic parameter: `self.iter.next()`
+                let mut ftys: BTreeMap<String, String> = BTreeMap::new();
+                if let Some(stn) = st {
+                    if let Some(si) = self.tables.struct_info(stn) {
+                        for f in si.fields.iter() {
+                            if let Ty::Param(g) = &f.ty {
+                                if gens.contains(g) {
+                                    ftys.insert(f.name.clone(), g.clone());
                                 }
                             }
                         }
@@ -1054,6 +1123,8 @@ impl Driver {
                 }
                 struct M<'g> {
                     ptys: &'g BTreeMap<String, String>,
+                    ftys: &'g BTreeMap<String, String>,
+                    known: &'g BTreeMap<String, Ty>,
                     found: Vec<String>,
                 }
                 impl<'ast, 'g> syn::visit::Visit<'ast> for M<'g> {
@@ -1068,11 +1139,97 @@ impl Driver {
                                 }
                             }
                         }
+                        if let Expr::Field(f) = &*m.receiver {
+                            if let (Expr::Path(p), Member::Named(fname)) = (&*f.base, &f.member) {
+                                if p.path.is_ident("self") && self.known.contains_key(&m.method.to_string()) {
+                                    if let Some(g) = self.ftys.get(&fname.to_string()) {
+                                        let k = format!("{}::{}", g, m.method);
+                                        if !self.found.contains(&k) {
+                                            self.found.push(k);
+                                        }
+                                    }
+                                }
+                            }
+                        }
                         syn::visit::visit_expr_method_call(self, m);
                     }
                 }
-                let mut mv = M { ptys: &ptys, found: vec![] };
+                let mut mv = M { ptys: &ptys, ftys: &ftys, known: &self.tables.assoc_tys, found: vec![] };
                 syn::visit::Visit::visit_block(&mut mv, ff.block);
+                // (a) a method whose `assoc` type says its receiver is `G` / `G::X` for a generic G of this function
+                //     (receivers that are closure parameters or results, whose types are not visible syntactically);
+                // (b) a call of a configured method of ANOTHER impl that abstracts items of its own generic parameters
+                //     (`iter.nth(..)` on a RawDataIterator needs `R::load::<O>`): the caller abstracts them too, under the
+                //     same key, unless it has a generic parameter of that name itself
+                {
+                    struct A<'g> {
+                        gens: &'g BTreeSet<String>,
+                        known: &'g BTreeMap<String, Ty>,
+                        fns: &'g Vec<FnInfo>,
+                        st: Option<&'g str>,
+                        found: Vec<String>,
+                        clash: Option<String>,
+                    }
+                    impl<'g> A<'g> {
+                        fn name(&mut self, n: &str, with_a: bool) {
+                            if let (true, Some(Ty::Fn(ps, _))) = (with_a, self.known.get(n)) {
+                                if let Some(Ty::Param(g)) = ps.first() {
+                                    if self.gens.contains(g.split("::").next().unwrap()) {
+                                        let k = format!("{}::{}", g, n);
+                                        if !self.found.contains(&k) {
+                                            self.found.push(k);
+                                        }
+                                    }
+                                }
+                            }
+                        }
+                    }
+                    impl<'ast, 'g> syn::visit::Visit<'ast> for A<'g> {
+                        fn visit_expr_method_call(&mut self, m: &'ast ExprMethodCall) {
+                            self.name(&m.method.to_string(), true);
+                            syn::visit::visit_expr_method_call(self, m);
+                        }
+                        fn visit_expr_call(&mut self, c: &'ast ExprCall) {
+                            if let Expr::Path(p) = &*c.func {
+                                if p.path.segments.len() >= 2 {
+                                    let n = p.path.segments.last().unwrap().ident.to_string();
+                                    // only (b): `Type::function(..)`
+                                    self.name(&n, false);
+                                }
+                            }
+                            syn::visit::visit_expr_call(self, c);
+                        }
+                    }
+                    let mut av = A { gens: &gens, known: &self.tables.assoc_tys, fns: &self.tables.fns, st, found: vec![], clash: None };
+                    syn::visit::Visit::visit_block(&mut av, ff.block);
+                    if let Some(c) = av.clash {
+                        return Err(format!("{} `{}`: abstracted item {}", file, spec, c));
+                    }
+                    // `needs=<key>,..`: items abstracted by configured methods of OTHER impls that this function calls
+                    // (`iter.nth(..)` on a RawDataIterator needs `R::load::<O>`): parameters of this function under the same key
+                    if let Some(ns) = &needs {
+                        for k in ns.split(',') {
+                            let g0 = k.split("::").next().unwrap();
+                            if gens.contains(g0) {
+                                return Err(format!("{} `{}`: `needs={}` but `{}` is a generic parameter of this function itself", file, spec, k, g0));
+                            }
+                            let by_fn = self.tables.fns.iter().any(|f| f.assoc_params.iter().any(|(k2, _)| k2 == k));
+                            let last = k.split("::<").next().unwrap().rsplit("::").next().unwrap();
+                            let by_assoc = matches!(self.tables.assoc_tys.get(last), Some(Ty::Fn(ps, _)) if matches!(ps.first(), Some(Ty::Param(g)) if format!("{}::{}", g, last) == k));
+                            if !by_fn && !by_assoc {
+                                return Err(format!("{} `{}`: `needs={}`: no configured function abstracts such an item and no `assoc` line declares it", file, spec, k));
+                            }
+                            if !av.found.contains(&k.to_string()) {
+                                av.found.push(k.to_string());
+                            }
+                        }
+                    }
+                    for k in av.found {
+                        if !mv.found.contains(&k) {
+                            mv.found.push(k);
+                        }
+                    }
+                }
                 for k in mv.found {
                     if !v.found.contains(&k) {
                         v.found.push(k);
@@ -1265,7 +1422,7 @@ impl Driver {
         let info = FnInfo { key: spec.to_string(), name: name.clone(), coq, self_ty: self_ty.clone(), trait_name: trait_spec.clone(), self_kind, const_generics, assoc_params, params, mut_params, mvars, generic_names: ff.sig.generics.params.iter().filter_map(|p| if let GenericParam::Type(t) = p { Some(t.ident.to_string()) } else { None }).collect(), impl_args: impl_args.clone(), file: file.to_string(), ret, fuel: false };
         self.tables.fns.push(info);
         let idx = self.tables.fns.len() - 1;
-        self.jobs.push(FnJob { file: file.to_string(), self_ty, trait_spec, name, info_idx: idx, module, inst: inst_map });
+        self.jobs.push(FnJob { file: file.to_string(), self_ty, find_self_ty, trait_spec, name, info_idx: idx, module, inst: inst_map });
         self.modules[module].decls.push(Decl::Fn(self.jobs.len() - 1));
         Ok(())
     }
@@ -1283,6 +1440,7 @@ impl Driver {
         for it in all_items(&src.file.items) {
             match (it, &st) {
                 (Item::Const(c), None) if c.ident == name => found.push((&c.ty, &c.expr, c.span().start().line, c.span().end().line)),
+                (Item::Static(c), None) if c.ident == name && matches!(c.mutability, StaticMutability::None) => found.push((&c.ty, &c.expr, c.span().start().line, c.span().end().line)),
                 (Item::Impl(im), Some(t)) if type_last_ident(&im.self_ty).as_deref() == Some(t.rsplit('.').next().unwrap()) => {
                     for ii in im.items.iter() {
                         if let ImplItem::Const(c) = ii {
@@ -1301,7 +1459,7 @@ impl Driver {
         let (ty, ex, l1, l2) = found[0];
         let mvars = self.mvars_of(quote::ToTokens::to_token_stream(ex), None, file);
         let ty = self.conv(ty, &BTreeSet::new(), st.as_deref(), None)?;
-        let mut tr = Tr { t: &self.tables, self_ty: st.clone(), ret_ty: ty.clone(), mut_self: false, counter: BTreeMap::new(), mut_methods: BTreeSet::new(), generic_tys: BTreeSet::new(), subst: BTreeMap::new(), fuel: false, needs_fuel: false, fuel_var: String::new(), fuel_names: BTreeSet::new(), mutarg_names: BTreeSet::new(), mut_params: vec![], ret_coq: String::new(), loops: vec![], fn_assigned: BTreeSet::new(), cur_file: file.to_string(), fn_coq: String::new(), loop_counter: 0, aux_defs: vec![], turbofish_types: None, inst_traits: BTreeMap::new(), self_coq: String::new(), mut_param_coq: vec![] };
+        let mut tr = Tr { t: &self.tables, self_ty: st.clone(), ret_ty: ty.clone(), mut_self: false, counter: BTreeMap::new(), mut_methods: BTreeSet::new(), generic_tys: BTreeSet::new(), subst: BTreeMap::new(), fuel: false, needs_fuel: false, unwrap_retry: false, fuel_var: String::new(), fuel_names: BTreeSet::new(), mutarg_names: BTreeSet::new(), mut_params: vec![], ret_coq: String::new(), loops: vec![], gen: None, fn_assigned: BTreeSet::new(), cur_file: file.to_string(), fn_coq: String::new(), loop_counter: 0, aux_defs: vec![], turbofish_types: None, inst_traits: BTreeMap::new(), self_coq: String::new(), mut_param_coq: vec![] };
         let mut cenv = Env::default();
         let cbinders = self.mvar_binders(&mvars, &mut tr, &mut cenv)?;
         let v = tr.pure(ex, &cenv, Some(&ty)).map_err(|e| format!("{} const `{}`: {}", file, spec, e))?;
@@ -1311,7 +1469,8 @@ impl Driver {
         let head = format!("(* {}:{}-{}  const {}  hash:{:016x} *)", file, l1, l2, spec, fnv1a(&text));
         let cty = self.tables.coq_ty(&ty)?;
         let body = format!("{}\nDefinition {}{} : {} := {}.\n", head, coq, cbinders, cty, v.s);
-        if self.tables.consts.iter().any(|c| c.key == spec || c.coq == coq) {
+        // the same bare name may be a (file-private) constant of several files; the Coq names must differ
+        if self.tables.consts.iter().any(|c| (c.key == spec && (c.file == file || st.is_some())) || c.coq == coq) {
             return Err(format!("{} const `{}`: key or Coq name `{}` already used", file, spec, coq));
         }
         self.tables.consts.push(ConstInfo { key: spec.to_string(), coq, ty, mvars, file: file.to_string() });
@@ -1326,7 +1485,12 @@ impl Driver {
             Ok(s) => Ok((s, self.tables.fns[job.info_idx].fuel)),
             Err((e, needs_fuel)) => {
                 if needs_fuel && !self.tables.fns[job.info_idx].fuel {
-                    self.translate_fn_with(job, true).map(|s| (s, true)).map_err(|(e, _)| e)
+                    let r = self.translate_fn_with(job, true).map(|s| (s, true)).map_err(|(e, _)| e)?;
+                    // fuel only because of `unwrap()`: refuse (the function has no loop; `unwrap` panics)
+                    if e.contains("`unwrap()` (panics") && r.0.matches("fuel'").count() <= 1 {
+                        return Err(format!("{} `{}`: `unwrap()` in a function without loops / fuelled calls (it panics; not translated)", job.file, self.tables.fns[job.info_idx].key));
+                    }
+                    Ok(r)
                 } else {
                     Err(e)
                 }
@@ -1337,20 +1501,35 @@ impl Driver {
     fn translate_fn_with(&self, job: &FnJob, fuel: bool) -> std::result::Result<String, (String, bool)> {
         let nf = |e: String| (e, false);
         let src = &self.sources[&job.file];
-        let ff = find_fn(src, job.self_ty.as_deref(), job.trait_spec.as_deref(), &job.name).map_err(nf)?;
+        let ff = find_fn(src, job.find_self_ty.as_deref(), job.trait_spec.as_deref(), &job.name).map_err(nf)?;
         let info = &self.tables.fns[job.info_idx];
         let mut gens = Self::generics_of(&ff.sig.generics);
         if let Some(g) = ff.impl_generics {
             gens.extend(Self::generics_of(g));
         }
-        let mut_methods: BTreeSet<String> = self.tables.fns.iter().filter(|f| f.self_kind == SelfKind::Mut).map(|f| f.name.clone()).collect();
+        let mut mut_methods: BTreeSet<String> = self.tables.fns.iter().filter(|f| f.self_kind == SelfKind::Mut).map(|f| f.name.clone()).collect();
+        mut_methods.extend(self.tables.assoc_mut.iter().cloned());
         let mut fuel_names: BTreeSet<String> = self.tables.fns.iter().filter(|f| f.fuel).map(|f| f.name.clone()).collect();
         for f in self.tables.fns.iter().filter(|f| f.fuel) {
             if let Some(st) = &f.self_ty {
                 fuel_names.insert(format!("{}::{}", st.rsplit('.').next().unwrap().split('<').next().unwrap(), f.name));
             }
         }
-        let mutarg_names: BTreeSet<String> = self.tables.fns.iter().filter(|f| f.has_mut_params()).map(|f| f.name.clone()).collect();
+        // functions with `&mut` parameters: `Type::name` for the path-call form, the bare name for method calls and free functions
+        let mut mutarg_names: BTreeSet<String> = BTreeSet::new();
+        for f in self.tables.fns.iter().filter(|f| f.has_mut_params()) {
+            match &f.self_ty {
+                Some(st) => {
+                    mutarg_names.insert(format!("{}::{}", st.rsplit('.').next().unwrap().split('<').next().unwrap(), f.name));
+                    if f.self_kind != SelfKind::None {
+                        mutarg_names.insert(f.name.clone());
+                    }
+                }
+                None => {
+                    mutarg_names.insert(f.name.clone());
+                }
+            }
+        }
         let rtys = info.result_tys();
         let mut rcs = vec![];
         for t in rtys.iter() {
@@ -1376,12 +1555,14 @@ impl Driver {
             },
             fuel,
             needs_fuel: false,
+            unwrap_retry: false,
             fuel_var: "fuel'".into(),
             fuel_names,
             mutarg_names,
             mut_params: info.params.iter().zip(info.mut_params.iter()).filter(|(_, m)| **m).map(|((n, _), _)| n.clone()).collect(),
             ret_coq: ret_coq.clone(),
             loops: vec![],
+            gen: None,
             fn_assigned: BTreeSet::new(),
             cur_file: job.file.clone(),
             fn_coq: info.coq.clone(),
@@ -1405,10 +1586,19 @@ impl Driver {
                             }
                         }
                     };
-                    for p in ff.sig.generics.params.iter() {
+                    for p in ff.sig.generics.params.iter().chain(ff.impl_generics.iter().flat_map(|g| g.params.iter())) {
                         if let GenericParam::Type(tp) = p {
                             if tp.ident == g {
                                 add(&tp.bounds);
+                            }
+                        }
+                    }
+                    for w in ff.impl_generics.iter().filter_map(|g| g.where_clause.as_ref()) {
+                        for pr in w.predicates.iter() {
+                            if let WherePredicate::Type(pt) = pr {
+                                if matches!(&pt.bounded_ty, Type::Path(tp) if tp.path.is_ident(g)) {
+                                    add(&pt.bounds);
+                                }
                             }
                         }
                     }
@@ -1555,7 +1745,28 @@ impl Driver {
                     let n = e.eqb.clone().unwrap();
                     writeln!(out, "Definition {} (a b : {}) : bool :=\n  match a, b with", n, e.coq_ty).unwrap();
                     for v in e.variants.iter() {
-                        writeln!(out, "  | {}, {} => true", v.ctor, v.ctor).unwrap();
+                        if v.fields.is_empty() {
+                            writeln!(out, "  | {}, {} => true", v.ctor, v.ctor).unwrap();
+                        } else {
+                            let xs: Vec<String> = (0..v.fields.len()).map(|i| format!("x{}_", i)).collect();
+                            let ys: Vec<String> = (0..v.fields.len()).map(|i| format!("y{}_", i)).collect();
+                            let mut conj = vec![];
+                            for (i, (_, t)) in v.fields.iter().enumerate() {
+                                conj.push(match t {
+                                    Ty::Bool => format!("Bool.eqb {} {}", xs[i], ys[i]),
+                                    Ty::Adt(k) => {
+                                        let f = match self.tables.adts.get(k) {
+                                            Some(Adt::Struct(s)) => s.eqb.clone(),
+                                            Some(Adt::Enum(e2)) => e2.eqb.clone(),
+                                            None => None,
+                                        };
+                                        format!("{} {} {}", f.ok_or_else(|| format!("no eqb for {}", k))?, xs[i], ys[i])
+                                    }
+                                    _ => format!("({} =? {})", xs[i], ys[i]),
+                                });
+                            }
+                            writeln!(out, "  | {} {}, {} {} => {}", v.ctor, xs.join(" "), v.ctor, ys.join(" "), conj.join(" && ")).unwrap();
+                        }
                     }
                     if e.variants.len() > 1 {
                         writeln!(out, "  | _, _ => false").unwrap();
@@ -1651,8 +1862,8 @@ fn main() {
             continue;
         }
         let w: Vec<&str> = line.split_whitespace().collect();
-        let opts: BTreeMap<String, String> = w.iter().filter_map(|x| x.split_once('=').filter(|(a, _)| !a.is_empty() && *a != "").map(|(a, b)| (a.to_string(), b.to_string()))).filter(|(a, _)| a == "as" || a == "eqb" || a == "inst").collect();
-        let w: Vec<&str> = w.into_iter().filter(|x| !(x.starts_with("as=") || x.starts_with("eqb=") || x.starts_with("inst="))).collect();
+        let opts: BTreeMap<String, String> = w.iter().filter_map(|x| x.split_once('=').filter(|(a, _)| !a.is_empty() && *a != "").map(|(a, b)| (a.to_string(), b.to_string()))).filter(|(a, _)| a == "as" || a == "eqb" || a == "inst" || a == "needs").collect();
+        let w: Vec<&str> = w.into_iter().filter(|x| !(x.starts_with("as=") || x.starts_with("eqb=") || x.starts_with("inst=") || x.starts_with("needs="))).collect();
         let cur = d.modules.len().wrapping_sub(1);
         let res: R<()> = match w[0] {
             "module" if w.len() == 2 => {
@@ -1664,8 +1875,12 @@ fn main() {
                 d.modules[cur].imports.push(w[1].to_string());
                 Ok(())
             }
+            "tymap" if w.len() == 3 => {
+                d.tables.tymap.insert(w[1].to_string(), w[2].to_string());
+                Ok(())
+            }
             "tyvar" if w.len() == 3 => {
-                d.tables.tyvars.insert(w[1].to_string(), w[2].to_string());
+                d.tables.tyvars.insert(w[1].to_string(), w[2].replace('~', " "));
                 Ok(())
             }
             "struct" | "enum" if w.len() >= 3 => {
@@ -1692,10 +1907,27 @@ fn main() {
                 Ok(())
             }
             "assoc" if w.len() == 3 => {
-                let t: R<Type> = syn::parse_str(w[2]).map_err(|e| e.to_string());
-                let gens: BTreeSet<String> = d.tables.tyvars.keys().cloned().collect();
-                t.and_then(|t| d.conv(&t, &gens, None, None)).map(|t| {
+                // `fnmut(A, ..) -> R`: a `&mut self` method of a generic parameter: A -> .. -> (A * R)
+                let is_mut = w[2].starts_with("fnmut(");
+                let src = if is_mut { w[2].replacen("fnmut(", "fn(", 1) } else { w[2].to_string() };
+                let t: R<Type> = syn::parse_str(&src).map_err(|e| e.to_string());
+                let gens: BTreeSet<String> = d.tables.tyvars.keys().map(|k| k.split("::").next().unwrap().to_string()).collect();
+                t.and_then(|t| d.conv(&t, &gens, None, None)).and_then(|t| {
+                    let t = match (is_mut, t) {
+                        (true, Ty::Fn(a, r)) if !a.is_empty() => {
+                            let st = a[0].clone();
+                            Ty::Fn(a, Box::new(Ty::Tuple(vec![st, *r])))
+                        }
+                        (true, _) => return Err("`assoc .. fnmut(..)` needs the receiver type as first argument".to_string()),
+                        (false, t) => t,
+                    };
+                    if is_mut {
+                        d.tables.assoc_mut.insert(w[1].to_string());
+                    } else {
+                        d.tables.assoc_mut.remove(w[1]);
+                    }
                     d.tables.assoc_tys.insert(w[1].to_string(), t);
+                    Ok(())
                 })
             }
             // extern <RustType> = <coq type> <method>:<rust return type>:<coq function, `~` for blanks> ...
@@ -1745,7 +1977,7 @@ fn main() {
                     }
                 }
             }
-            "fn" if w.len() == 3 => d.add_fn(w[1], w[2], opts.get("as").cloned(), opts.get("inst").cloned(), cur),
+            "fn" if w.len() == 3 => d.add_fn(w[1], w[2], opts.get("as").cloned(), opts.get("inst").cloned(), opts.get("needs").cloned(), cur),
             // macro <file> <macro name> <arm> as <virtual file> [$name=tokens ...]
             "macro" if w.len() >= 6 && w[4] == "as" => match w[3].parse::<usize>() {
                 Ok(arm) => d.add_macro(w[1], w[2], arm, w[5], &w[6..]),
